@@ -721,7 +721,10 @@ bool Parser::parseForStatement_AtFirst(StatementSyntax*& stmt,
         return false;
     }
 
-    forStmt->semicolonTkIdx_ = consume();
+    if (!match(SyntaxKind::SemicolonToken, &forStmt->semicolonTkIdx_)) {
+        skipTo(SyntaxKind::CloseParenToken);
+        return false;
+    }
     if (peek().kind() == SyntaxKind::CloseParenToken)
         forStmt->closeParenTkIdx_ = consume();
     else if (!(parseExpression(forStmt->expr_)
